@@ -159,13 +159,15 @@ type attempt struct {
 	NSigsUsed int
 	NSigs     int
 	PAValset  uint64
+	Dissent   string // "" nobody dissents | last / first / earlier-block: when the minority handed in the same tx with the opposite receipt status
 
-	tx      *ethtypes.Transaction
-	matches bool   // call data == independent encoding of this message for some signature prefix
-	prefix  int    // the prefix length that matched (-1 none)
-	rcOK    bool   // receipt present and status 1
-	initial bool   // upload on a chain without any live snapshot (first deployment)
-	expKey  string // snapshot id / contract id / author+id the success effects would carry
+	minority int // validators that dissent
+	tx       *ethtypes.Transaction
+	matches  bool   // call data == independent encoding of this message for some signature prefix
+	prefix   int    // the prefix length that matched (-1 none)
+	rcOK     bool   // receipt present and status 1
+	initial  bool   // upload on a chain without any live snapshot (first deployment)
+	expKey   string // snapshot id / contract id / author+id the success effects would carry
 
 	gas        uint64
 	assignee   *chain.Account
@@ -223,6 +225,10 @@ func (a *attempt) witness(w *wd, extra map[string]any) map[string]any {
 		"calldata_matches_reference_encoding": a.matches, "matching_prefix": a.prefix, "receipt_ok": a.rcOK,
 		"tx_hash": a.tx.Hash().Hex(), "tx_previously_accepted_for": w.accepted[a.tx.Hash()], "height": w.c.Height,
 		"history_tail": tail(w.history, 12),
+	}
+	if a.Dissent != "" {
+		when := map[string]string{dissentLast: "after the majority's evidence (same block)", dissentFirst: "before the majority's evidence (same block)", dissentEarlier: "one block before the majority's evidence"}[a.Dissent]
+		m["conflicting_evidence"] = fmt.Sprintf("%d validator(s) outside the >= 2/3 majority reported the same transaction with the opposite receipt status, %s", a.minority, when)
 	}
 	for k, v := range extra {
 		m[k] = v
@@ -322,7 +328,14 @@ func (w *wd) judge(events []event, logs []chain.LogLine, what string) {
 			if a.Late > 0 && a.matches {
 				rec.Count("rounds_late_signatures_matching", 1)
 			}
-			rec.Distinct(fmt.Sprintf("%s|%s|%s|%s|%d/%d|%d|%v", a.Action, a.Class, a.Receipt, a.Reuse, a.NSigsUsed, a.NSigs, a.Late, accepted))
+			if a.Dissent != "" {
+				rec.Count("rounds_conflicting_receipts/minority-"+a.Dissent, 1)
+				if a.Dissent != dissentLast && a.Receipt == rcStatus0 {
+					// >= 2/3 report the failed receipt, the first evidence on record carries a success receipt
+					rec.Count("rounds_forged_success_receipt_reported_first", 1)
+				}
+			}
+			rec.Distinct(fmt.Sprintf("%s|%s|%s|%s|%d/%d|%d|%v", a.Action, a.Class, a.Receipt, a.Reuse+dissentTag(a), a.NSigsUsed, a.NSigs, a.Late, accepted))
 		}
 		if accepted {
 			a.acceptedN++
@@ -447,7 +460,14 @@ func classGroup(a *attempt) string {
 	if a.Receipt != rcOK {
 		g += "+receipt:" + a.Receipt
 	}
-	return g
+	return g + dissentTag(a)
+}
+
+func dissentTag(a *attempt) string {
+	if a.Dissent == "" {
+		return ""
+	}
+	return "+minority-opposite-receipt:" + a.Dissent
 }
 
 func (w *wd) relayRecorded(a *attempt) bool {
